@@ -3,14 +3,16 @@ terminal emulator.  The real TermWriter is run (through corr_C20) on generated h
 wrote are replayed inside a detached tmux pane of the same width, the pane is captured, and the captured
 rows are compared with the rows computed by the Go copy of the reference machine (the `rows=` field of
 the implementation answer).  tmux missing => the step is skipped and says so (assumption recorded)."""
-import os, random, shutil, subprocess, time
+import os, random, shutil, subprocess, time, sys
+sys.path.insert(0, os.path.dirname(os.path.abspath(__file__)))
+import common
 
 
 def hx(b):
     return b.hex() if b else "-"
 
 
-def run(ctx):
+def run_tmux(ctx):
     tmux = shutil.which("tmux")
     if not tmux:
         return {"runs": 0, "violations": [], "assumptions": [
@@ -79,3 +81,146 @@ def run(ctx):
     return {"runs": runs, "violations": violations,
             "assumptions": ["reference terminal compared with tmux %s on %d sessions of the real TermWriter (ASCII + SGR texts; width-1 cells assumed for every rune)" %
                             (subprocess.run([tmux, "-V"], stdout=subprocess.PIPE, text=True).stdout.strip(), runs)]}
+
+
+# ---------------------------------------------------------------------------------------------------------------
+# end to end through the real CLI: `rare histo` on a pseudo-terminal (live TermWriter, width/height from
+# TIOCGWINSZ, AutoTrim on – the init() branch no in-process harness can reach) against the same command with
+# piped output (cmd/helpers.BuildVTerm picks the BufferedTerm).  The pty bytes are interpreted by the reference
+# terminal (corr_C20 op `vt`); the final screen must show, row by row, the lines the buffered writer printed,
+# cut to the terminal width, with the cursor parked below them and visible.
+
+def _pty_run(cmd, rows, cols, stdin_chunks=None, pause=0.0):
+    import pty, fcntl, termios, struct, select
+    m, s = pty.openpty()
+    fcntl.ioctl(s, termios.TIOCSWINSZ, struct.pack("HHHH", rows, cols, 0, 0))
+    p = subprocess.Popen(cmd, stdout=s, stderr=subprocess.DEVNULL,
+                         stdin=subprocess.PIPE if stdin_chunks is not None else subprocess.DEVNULL)
+    os.close(s)
+    out = b""
+
+    def drain(wait):
+        nonlocal out
+        end = time.time() + wait
+        while True:
+            r, _, _ = select.select([m], [], [], max(0.0, min(0.2, end - time.time())))
+            if r:
+                try:
+                    d = os.read(m, 65536)
+                except OSError:
+                    return False
+                if not d:
+                    return False
+                out += d
+            elif time.time() >= end:
+                return True
+
+    if stdin_chunks is not None:
+        for ch in stdin_chunks:
+            p.stdin.write(ch)
+            p.stdin.flush()
+            drain(pause)
+        p.stdin.close()
+    deadline = time.time() + 20
+    while p.poll() is None and time.time() < deadline:
+        drain(0.1)
+    if p.poll() is None:
+        p.kill()
+    drain(0.3)
+    os.close(m)
+    return out
+
+
+def _strip_sgr(s):
+    import re
+    return re.sub(r"\x1b\[[0-9;:]*m", "", s)
+
+
+def _screen(ctx, cols, rows, data):
+    case = "C20 vt %d %d 0 0 %s" % (cols, rows, hx(data))
+    p = subprocess.run([os.path.join(ctx["bin"], "corr_C20"), "run", "C20"], input=case + "\n", stdout=subprocess.PIPE, text=True, timeout=60)
+    ans = p.stdout.strip()
+    f = dict(kv.split("=", 1) for kv in ans.split(" ")[1:] if "=" in kv)
+    scr = [bytes.fromhex(r).decode("utf-8", "replace") if r != "-" else "" for r in f["rows"].split(";")]
+    return scr, int(f["row"]), f["vis"] == "1"
+
+
+def run_cli(ctx):
+    try:
+        import pty  # noqa: F401
+        m, s = os.openpty()
+        os.close(m)
+        os.close(s)
+    except Exception as e:
+        return {"runs": 0, "violations": [], "assumptions": ["no pseudo-terminals in this sandbox (%s): the real CLI was not run on a live terminal" % e]}
+    rare = common.build_rare(ctx)
+    rnd = random.Random(ctx["seed"] * 104729 + 2020)
+    n = 3 if ctx["tier"] == "quick" else 12
+    work = os.path.join(ctx["work"], "cli")
+    os.makedirs(work, exist_ok=True)
+    violations, runs = [], 0
+    for it in range(n):
+        nkeys = rnd.randint(1, 9)
+        keys = rnd.sample(["alpha", "b", "gamma-delta", "k3", "some/long/path/name.html", "é-ü", "x y", "zz", "404", "KEY"], nkeys)
+        lines = []
+        for i, k in enumerate(keys):
+            lines += ["%s %d" % (k.replace(" ", "_"), j) for j in range(3 * (i + 1) + rnd.randint(0, 1) * 40)]
+        rnd.shuffle(lines)
+        path = os.path.join(work, "in%d.log" % it)
+        open(path, "w").write("\n".join(lines) + "\n")
+        cols = rnd.choice([12, 20, 33, 50, 80, 120])
+        rows = 40
+        top = rnd.choice([3, 5, 20])
+        cmd = [rare, "histo", "-m", r"(\S+) (\d+)", "-e", "{1}", "-n", str(top), path]
+        piped = subprocess.run(cmd, stdout=subprocess.PIPE, stderr=subprocess.DEVNULL, timeout=60).stdout.decode("utf-8", "replace")
+        want = [_strip_sgr(l) for l in piped.split("\n")]
+        if want and want[-1] == "":
+            want.pop()
+        data = _pty_run(cmd, rows, cols)
+        scr, row, vis = _screen(ctx, cols, rows, data)
+        runs += 1
+        bad = None
+        for i, l in enumerate(want):
+            if "B/s" in l:
+                continue  # throughput line: differs from run to run
+            if scr[i].rstrip() != l[:cols].rstrip():
+                bad = "row %d shows %r, the buffered writer printed %r" % (i, scr[i], l)
+                break
+        if bad is None and (row != len(want) or not vis):
+            bad = "cursor on row %d visible=%s after Close, expected row %d visible" % (row, vis, len(want))
+        if bad is None and not data.startswith(b"\x1b[?25l"):
+            bad = "the live writer did not hide the cursor first"
+        if bad:
+            violations.append({"key": "cli-live-differs", "cmd": " ".join(cmd), "cols": cols, "rows": rows, "explanation": bad,
+                               "pty_bytes": hx(data[:4000]), "piped_output": piped[:2000]})
+            if len(violations) >= 3:
+                break
+    # the terminal is shorter than the block of lines (known finding: the writer does not know the height)
+    path = os.path.join(work, "short.log")
+    chunk1 = "".join("key%d %d\n" % (i % 7, i) for i in range(200)).encode()
+    chunk2 = "".join("key%d %d\n" % (i % 3, i) for i in range(300)).encode()
+    cmd = [rare, "histo", "-m", r"(key\d+) (\d+)", "-e", "{1}", "-n", "6", "-"]
+    piped = subprocess.run(cmd, input=chunk1 + chunk2, stdout=subprocess.PIPE, stderr=subprocess.DEVNULL, timeout=60).stdout.decode("utf-8", "replace")
+    want = [_strip_sgr(l) for l in piped.split("\n")]
+    if want and want[-1] == "":
+        want.pop()
+    rows, cols = 4, 40
+    data = _pty_run(cmd, rows, cols, stdin_chunks=[chunk1, chunk2], pause=0.7)
+    scr, row, vis = _screen(ctx, cols, rows, data)
+    runs += 1
+    tail = want[len(want) - (rows - 1):]
+    frames = data.count(b"Matched:")
+    same = all("B/s" in l or scr[i].rstrip() == l[:cols].rstrip() for i, l in enumerate(tail))
+    short_note = ("short terminal (4 rows, %d output lines, %d frames drawn): every frame after the first scroll is drawn displaced "
+                  "(known finding, witness `termspec`); because rare repaints all lines top to bottom in every frame the visible rows "
+                  "after the last frame %s the last lines of the buffered output; the repeated frames are in the scrollback"
+                  % (len(want), frames, "equal" if same else "DIFFER from"))
+    return {"runs": runs, "violations": violations,
+            "assumptions": ["real CLI (rare histo) run %d times on a pty (live TermWriter, AutoTrim from the pty size) and piped (BufferedTerm); final screens computed by the reference terminal" % runs, short_note]}
+
+
+def run(ctx):
+    a = run_tmux(ctx)
+    b = run_cli(ctx)
+    return {"runs": a.get("runs", 0) + b.get("runs", 0), "violations": a.get("violations", []) + b.get("violations", []),
+            "assumptions": a.get("assumptions", []) + b.get("assumptions", [])}
